@@ -857,7 +857,7 @@ func lateDefs() []*CheckDef {
 			Runs: []ProfRun{{"queue", 24, 500}, {"core", 24, 500}, {"gov", 8, 200}, {"extreme", 8, 150}},
 			Mons: func(r *Runner) []Monitor { return []Monitor{NewMonC19(r)} },
 			Required: []string{"C19.block/slashes1", "C19.block/slashes0/redels3", "matured1", "C19.replays-compared", "C19.replay-with-ghost-branches", "C19.rerun-in-fresh-process"},
-			Rule: "every seeded history is executed and then replayed twice more (quick) from its explicit step list on sibling branches of the same post-genesis state within one process, one of the two replays with every step first executed on a branch that is thrown away (this block's end and the ends of two further blocks for a block step): nothing of a discarded branch may influence the real execution; after every transaction the result and an event digest, after every block the begin/end-block results, event digests and a SHA-256 of the raw dump of the alliance, bank, staking, distribution, slashing and auth stores must be identical across replays (Go randomises map iteration per loop; addresses and scheduling differ between replays); thorough additionally runs histories concurrently in separate app instances under the race detector; the static clause of the property (source scan) is out of reach of runtime monitoring and not decided; a situation class = (slashes in block, pending redelegations, pending unbondings, matured entries)",
+			Rule: "every seeded history is executed and then replayed twice more (quick) from its explicit step list on sibling branches of the same post-genesis state within one process, one of the two replays with every step first executed on a branch that is thrown away (this block's end and the ends of two further blocks for a block step; for a transaction also the transactions that follow it in the block, on another discarded branch): nothing of a discarded branch may influence the real execution; a third of the histories that were not the first of their process are executed once more in a process of their own and must give the same digest; after every transaction the result and an event digest, after every block the begin/end-block results, event digests and a SHA-256 of the raw dump of the alliance, bank, staking, distribution, slashing and auth stores must be identical across replays (Go randomises map iteration per loop; addresses and scheduling differ between replays); thorough additionally runs histories concurrently in separate app instances under the race detector; the static clause of the property (source scan) is out of reach of runtime monitoring and not decided; a situation class = (slashes in block, pending redelegations, pending unbondings, matured entries)",
 			Assumptions: append(append([]string{}, commonAssumptions...), "the static 'for all current and future code paths' clause of C19 (AST scan) is not decided by this technique"),
 		},
 		{
